@@ -18,10 +18,25 @@ def gen_tree(rnd, depth, lists_only=False):
     if r < 0.66 and not lists_only:
         return ["checkbox", rnd.choice(["x", "*", "ab", ""]), rnd.choice([None, "", "title", "a long title here"]), rnd.choice([None, "desc text", ""]), rnd.choice([True, False])]
     if r < 0.72 and not lists_only:
-        return ["window", rnd.choice([None, "", "Title", "a long title of the window"]), [gen_tree(rnd, depth - 1) for _ in range(rnd.randint(0, 3))]]
-    return ["list", rnd.random() < 0.4, rnd.choice([1, 1, 2, 2, 3, 4, 0]), rnd.choice([None, None, None, 6, 12]), rnd.choice([0, 1, 3, 3]),
-            rnd.choice([None, ["", ") ", 1], ["", ") ", 1], ["", ") ", rnd.choice([0, 5, 98, -2])], ["(", ")", 1]]),
-            [gen_tree(rnd, depth - 1) for _ in range(rnd.choice([0, 1, 2, 3, 4, 5, 7, 11]))]]
+        return ["window", rnd.choice([None, "", "Title", "a long title of the window"]), share_leaves(rnd, [gen_tree(rnd, depth - 1) for _ in range(rnd.randint(0, 3))])]
+    kp = rnd.choice([None, ["", ") ", 1], ["", ") ", 1], ["", ") ", rnd.choice([0, 5, 98, -2])], ["(", ")", 1]])
+    items = [gen_tree(rnd, depth - 1) for _ in range(rnd.choice([0, 1, 2, 3, 4, 5, 7, 11]))]
+    # (a numbered list renders every item first - at a width that depends on its label - and draws afterwards: one object in two cells is not two equal
+    # items there; without numbering every cell gets the same width)
+    if kp is None: items = share_leaves(rnd, items)
+    return ["list", rnd.random() < 0.4, rnd.choice([1, 1, 2, 2, 3, 4, 0]), rnd.choice([None, None, None, 6, 12]), rnd.choice([0, 1, 3, 3]), kp, items]
+
+
+def share_leaves(rnd, items):
+    """now and then the application adds the very same leaf widget object to a container twice (e.g. one 'n/a' text in several cells)"""
+    if len(items) >= 2 and rnd.random() < 0.12:
+        leaves = [j for j, x in enumerate(items) if x[0] in ("text", "checkbox", "sep")]
+        if leaves:
+            j = rnd.choice(leaves)
+            later = [i for i in range(j + 1, len(items))]
+            if later:
+                for i in rnd.sample(later, rnd.randint(1, min(2, len(later)))): items[i] = ["ref", j]
+    return items
 
 
 def container_paths(spec, prefix=()):
@@ -29,6 +44,7 @@ def container_paths(spec, prefix=()):
     out = []
     kids = spec[2] if spec[0] == "window" else spec[6] if spec[0] == "list" else [spec[1]] if spec[0] == "center" else []
     for i, k in enumerate(kids):
+        if k[0] == "ref": continue
         if k[0] in ("window", "list"): out.append(list(prefix) + [i])
         out += container_paths(k, tuple(prefix) + (i,))
     return out
